@@ -62,7 +62,7 @@ NAN = float("nan")
 ETS = [m for m in FExecType]
 OSS = [m for m in FOrdStatus]
 qty_choice = st.sampled_from(["nan", "same", "inc-small", "inc-half", "to-full", "over", "zero", "neg"])
-leaves_choice = st.sampled_from(["nan", "rest", "zero", "over", "half", "neg"])
+leaves_choice = st.sampled_from(["nan", "rest", "zero", "over", "half", "neg", "rest", "just-over"])
 last_choice = st.sampled_from(["nan", "delta", "other", "zero"])
 probe = st.tuples(
     st.just("probe"), st.sampled_from(ETS), st.sampled_from(OSS), qty_choice, leaves_choice, last_choice,
@@ -116,7 +116,7 @@ class Run:
             self.bad(f"er/schema-raises/{type(e).__name__}", f"{type(e).__name__}: {e}; msg={m!r}", i)
         try:
             cum, lv, oq = float(m[FTag.CumQty]), float(m[FTag.LeavesQty]), float(m[FTag.OrderQty])
-            if cum + lv > oq + 1e-9:
+            if cum + lv > oq * (1 + 1e-12) + 1e-15:
                 self.bad("er/cum+leaves>orderqty", f"CumQty {cum} + LeavesQty {lv} > OrderQty {oq}; args={args!r}", i)
             if m[FTag.OrdStatus] in FIN and lv != 0:
                 self.bad("er/finished-with-leaves", f"OrdStatus {m[FTag.OrdStatus]} with LeavesQty {lv}; args={args!r}", i)
@@ -185,7 +185,8 @@ class Run:
                        "over": o.qty + 1.0, "zero": 0.0, "neg": -1.0}[cq]
                 base_cum = o.cum_qty if math.isnan(cum) else cum
                 oqty = o.qty if math.isnan(oq) else oq
-                leaves = {"nan": NAN, "rest": max(oqty - base_cum, 0.0), "zero": 0.0, "over": oqty + 1.0, "half": max(oqty - base_cum, 0.0) / 2, "neg": -1.0}[lq]
+                leaves = {"nan": NAN, "rest": max(oqty - base_cum, 0.0), "zero": 0.0, "over": oqty + 1.0, "half": max(oqty - base_cum, 0.0) / 2, "neg": -1.0,
+                          "just-over": max(oqty - base_cum, 0.0) + oqty * 5e-10}[lq]  # CumQty + LeavesQty a hair above OrderQty
                 last = {"nan": NAN, "delta": base_cum - o.cum_qty, "other": 3.0, "zero": 0.0}[lastq]
                 clord = o.clord_id if which == "cur" or not o.orig_clord_id else o.orig_clord_id
                 origv = None if orig is None else (o.orig_clord_id if orig == "orig" else "x-orig")
@@ -410,6 +411,19 @@ def session_factories(acc):
             acc.violation(f"C20:session/{name}/invalid-for-dictionary", f"{name}{args!r} -> {m!r} does not validate: {str(e)[:300]}", case)
         except BaseException as e:  # noqa
             acc.violation(f"C20:session/{name}/schema-raises/{type(e).__name__}", f"{type(e).__name__}: {e}", case)
+        # the caller edits what it was handed (an explicit MsgSeqNum, an extra tag) and asks the helper again: the next
+        # message must be fabricated afresh, not carry the edits
+        try:
+            before = repr(m)
+            m.set(34, 99, replace=True)
+            m.set(58, "edited by the caller", replace=True)
+            m2 = fn()
+            if repr(m2) != before:
+                acc.violation(f"C20:session/{name}/not-fresh", f"{name}{args!r} after the caller edited the previous result returns {m2!r}, first call returned {before}", case)
+        except AssertionError:
+            pass
+        except BaseException as e:  # noqa
+            acc.violation(f"C20:session/{name}/second-call-raises/{type(e).__name__}", f"{type(e).__name__}: {e}", case)
         acc.case(("session", name, repr(args)), cls=["session-factory", name], sample={"factory": name, "args": repr(args), "msg": repr(m)} if len(acc.samples) < 2 else None)
 
 
